@@ -67,9 +67,10 @@ type G struct {
 	// drawn from them so that the generator knows what resolves.
 	Decls []Decl
 	// Rejected counts schema draws that failed validation.
-	Rejected int
-	deps     map[*schema.BlockSchema]*DepInfo
-	items    int
+	oddSchema bool
+	Rejected  int
+	deps      map[*schema.BlockSchema]*DepInfo
+	items     int
 }
 
 func (g *G) maxItems() int {
